@@ -159,7 +159,7 @@ func vfC17MDo(t *testing.T, s *vfutil.Session, c *vfC17MCase, tag int, src strin
 	}
 	// monitor
 	pos := func(x string) (ok bool, off int64, db int, bad bool) {
-		if x == "err" {
+		if x == "err" || x == "tie" {
 			return false, 0, 0, true
 		}
 		if x == "none" {
